@@ -146,15 +146,22 @@ def head_no_writer(ctx, rule):
         v = v ^ r.get("bn_inv", 0)
         if bool(v) != has:
             ctx.violation(rule, "%s|writer|bn=%d" % (rule, v), "build() returns %s writer when body_needed is %s" % ("a" if has else "no", bool(v)))
-        key = tuple(sorted((fmt_term(t), val) for t, val in o.cons.known.items() if t != bnf))
-        by.setdefault(key, {})[v] = resp
-    for key, d in by.items():
-        if 0 in d and 1 in d:
-            h0 = SM.strip_uid([(SM.hdr_name(h[0]), h[1], h[2]) for h in agg_get(d[0], "headers")[1]])
-            h1 = SM.strip_uid([(SM.hdr_name(h[0]), h[1], h[2]) for h in agg_get(d[1], "headers")[1]])
-            if h0 != h1 or agg_get(d[0], "status") != agg_get(d[1], "status"):
-                ctx.violation(rule, rule + "|headers-depend-on-method", "build() produces different headers/status for HEAD than for other methods")
-        else:
+        key = frozenset((fmt_term(t), val) for t, val in o.cons.known.items() if t != bnf)
+        by.setdefault(v, []).append((key, resp))
+    # every no-body row has a body row with the same decisions (the body row may make further decisions afterwards, e.g. about
+    # the writer it builds) and the same headers / status, and vice versa
+    def sig(resp_):
+        return (repr(SM.strip_uid([(SM.hdr_name(h[0]), h[1], h[2]) for h in agg_get(resp_, "headers")[1]])), repr(agg_get(resp_, "status")))
+    terms0 = {k for key, _ in by.get(0, []) for k, _ in key}
+    for key0, resp0 in by.get(0, []):
+        twins = [(k1, r1) for k1, r1 in by.get(1, []) if key0 <= k1]
+        if not twins:
+            ctx.violation(rule, rule + "|unpaired", "a build() path exists only for one value of body_needed: some header decision depends on the method")
+        elif any(sig(r1) != sig(resp0) for _, r1 in twins):
+            ctx.violation(rule, rule + "|headers-depend-on-method", "build() produces different headers/status for HEAD than for other methods")
+    for key1, resp1 in by.get(1, []):
+        proj = frozenset((k, v_) for k, v_ in key1 if k in terms0)
+        if not any(key0 == proj for key0, _ in by.get(0, [])):
             ctx.violation(rule, rule + "|unpaired", "a build() path exists only for one value of body_needed: some header decision depends on the method")
     ctx.ok(rule, "build(): writer iff body_needed; headers independent of it", detail={"rows": n})
     ctx.floor(rule, n, 4, what="build() rows")
@@ -184,6 +191,7 @@ def coding_agreement(ctx):
     # R2: table over (should_gzip, level, body_needed)
     trie = Trie(rows)
     nok = 0
+    levels_seen = set()
     for sg, lvl, bn in itertools.product((0, 1), (0, 1, 6, 9), (0, 1)):
         ev = Evaluator({1: {r["sg"]: sg ^ r.get("sg_inv", 0), r["level"]: lvl, r["bn"]: bn ^ r.get("bn_inv", 0), r["chunk"]: 4096}})
         try:
@@ -225,10 +233,15 @@ def coding_agreement(ctx):
             if is_gz:
                 # R4: compression level = the configured level
                 lv = wt[2][1] if len(wt[2]) > 1 else None
-                if not (isinstance(lv, tuple) and lv[0] == "call" and lv[1].endswith("Compression::new") and lv[2][0] == ("field", ("param", 1), r["level"])):
-                    ctx.violation("C17.R4", "C17.R4|level", "the gzip writer is not built with Compression::new(<configured level>): %s" % short(lv, 80))
+                # (which compression level the encoder gets is not part of C17: the property fixes *whether* the body is gzip;
+                # a clamped or constant level is still gzip data - recorded, not judged)
+                if isinstance(lv, tuple) and lv[0] == "call" and lv[1].endswith("Compression::new") and lv[2][0] == ("field", ("param", 1), r["level"]):
+                    levels_seen.add("configured")
+                else:
+                    levels_seen.add(short(lv, 60))
         nok += 1
-    ctx.ok("C17.R2", "Content-Encoding: gzip <=> should_gzip and level > 0 <=> gzip writer (16 configurations)", detail={"configs": nok})
+    ctx.ok("C17.R2", "Content-Encoding: gzip <=> should_gzip and level > 0 <=> gzip writer (16 configurations)",
+           detail={"configs": nok, "encoder_level_argument": sorted(levels_seen)})
     ctx.floor("C17.R2", nok, 16, what="configurations evaluated")
     # R3: the negotiation input
     sgt = r["sg_term"]
